@@ -10,10 +10,16 @@
 // of a storage) answers 2-3 consecutive requests of a case - the first with a session state and a distinctive state,
 // the later ones without the interface / with an empty or different state - and every response is judged on its own.
 //
+// A fourth front (encfault.go) replays the end-to-end flows with a fault at a point while the response is built: the
+// Authorizer's response encoder (an interface of the application) fails at its k-th call, once or from then on, alone or
+// on the error path of a storage / Crypto fault.
+//
 // Every answer is decoded the way a user agent hands it to the client: the query of the Location, the raw text
 // after the first "#" of the Location parsed as a form, or the auto-submitting page parsed with an HTML5 parser;
 // the oracle compares each decoded value with the value that was produced / sent, checks that the query parameters
 // of the redirect URI survived and that the page is exactly one form of hidden inputs whose action is the redirect URI.
+// A client that asked for query or fragment mode reads that part of the Location: parameters delivered in the other part
+// did not arrive; an answer with a success / redirect status that delivers nothing has lost the response.
 package main
 
 import (
@@ -28,7 +34,8 @@ func main() {
 		"a storage may answer several requests with one and the same *oidc.Error value (sentinel); every response must carry exactly the state / session_state of the request being answered",
 		"equality is judged for values that are valid UTF-8 without NUL and without C0 controls other than TAB; other values are still sent and judged structurally (no panic, one form, no break-out, no injected parameter)",
 		"a redirect URI whose own query has a parameter named like a response parameter is excluded (the collision is the RP's own)",
-		"which response mode carries a response is not judged (errors of a form_post request are delivered by redirect in this library; counted as grey); only what arrives is compared",
+		"response mode: a request that names query or fragment must be answered in that part of the Location (the part the client decodes), success and error alike; a form_post request must get its code / tokens by form_post; no mode asked = not judged; the ERRORS of a form_post request are delivered by redirect in this library (counted as grey)",
+		"an answer that delivers nothing to the redirect URI is a violation only when its status is below 400 (the user agent is told all is well and neither response nor error arrives); a 4xx/5xx page to the user agent is counted (undelivered), not judged - e.g. when the encoder fails for the error response as well",
 		"token_type, expires_in, scope and refresh_token are not named by the statement: their loss or change is counted as grey",
 		"user agent = WHATWG form-urlencoded parsing of query / raw fragment and golang.org/x/net/html for the page; parser differentials to real browsers are out of reach",
 	)
@@ -41,13 +48,30 @@ func main() {
 			"intact:builder:query", "intact:e2e:query",
 			"sentinel-reuse:second-request-judged", "sentinel-reuse:second-request-judged:builder:AuthRequestError", "sentinel-reuse:second-request-judged:builder:TryErrorRedirect",
 			"sentinel-reuse:second-request-judged:e2e:provider", "sentinel-reuse:second-request-judged:e2e:legacy",
+			// an explicit response mode that is not the default of the response type, judged on every path
+			"non-default-mode-judged:builder:AuthResponseURL", "non-default-mode-judged:builder:AuthRequestError", "non-default-mode-judged:builder:TryErrorRedirect",
+			"non-default-mode-judged:e2e:provider:authorize:error", "non-default-mode-judged:e2e:legacy:authorize:error",
+			"non-default-mode-judged:e2e:provider:callback:error", "non-default-mode-judged:e2e:legacy:callback:error",
+			"non-default-mode-judged:e2e:provider:callback:success", "non-default-mode-judged:e2e:legacy:callback:success",
+			// the response encoder failed once while the response was built, and the answer was judged
+			"encoder-fault:provider:callback:form_post:delivered", "encoder-fault:legacy:callback:form_post:delivered",
+			"encoder-fault:provider:callback:url:delivered", "encoder-fault:legacy:callback:url:delivered",
+			"encoder-fault:provider:callback:form_post:refused", "encoder-fault:legacy:callback:url:refused",
+			"encoder-fault:provider:authorize:url:refused", "encoder-fault:legacy:authorize:url:refused",
 		)
 	}
 	nb := run.N(50000, 1000000)
 	ne := run.N(5000, 100000)
 	nsb := run.N(6000, 120000)
 	nse := run.N(1500, 30000)
+	nef := run.N(2500, 30000)
 	if rc := run.ReplayCase(); rc >= 0 {
+		if rc >= encBase {
+			k := rc - encBase
+			encFaultCase(run, int(k/2), 0)
+			encFaultCase(run, int(k/2), 1)
+			run.Finish()
+		}
 		if rc >= sentinelBase {
 			k := rc - sentinelBase
 			if k%2 == 0 {
@@ -69,6 +93,10 @@ func main() {
 	ev.Parallel(ne, 0, func(_ int, j int) {
 		e2eCase(run, j, 0)
 		e2eCase(run, j, 1)
+	})
+	ev.Parallel(nef, 0, func(_ int, j int) {
+		encFaultCase(run, j, 0)
+		encFaultCase(run, j, 1)
 	})
 	ev.Parallel(nse, 0, func(_ int, j int) {
 		sentinelE2ECase(run, j, 0)
